@@ -102,6 +102,17 @@ def _impl(tier, seed, search):
         S = np.r_[inputs.translation(g, -3, 3), w]
         se('trexp-se3', lambda: b.trexp(S), dict(S=S))
         se('trexp-se3-matrix', lambda: b.trexp(b.skewa(S)), dict(S=S))
+        # trexp(axis, theta): an axis that is not (exactly enough) unit may be rejected, but whatever is returned is a member
+        wu = inputs.unit_axis(g) * (1.0 + float(g.choice([-1.0, 1.0])) * 10.0 ** g.uniform(-16, -3)); th_e = float(g.uniform(-math.pi, math.pi))
+        for nm_, f_ in (('trexp(w,theta)', lambda: b.trexp(wu, th_e)), ('trexp(skew w,theta)', lambda: b.trexp(b.skew(wu), th_e)),
+                        ('trexp(float32 w,theta)', lambda: b.trexp(np.asarray(inputs.unit_axis(g), np.float32).astype(float), th_e))):
+            try: Me = f_()
+            except Exception: Me = None
+            if Me is not None: so(nm_, Me, dict(w=wu, theta=th_e))
+        Su = np.r_[inputs.translation(g, -3, 1), wu]
+        try: Te = b.trexp(Su, th_e)
+        except Exception: Te = None
+        if Te is not None: se('trexp(S,theta)', Te, dict(S=Su, theta=th_e))
         so('trexp2-so2', lambda: b.trexp2(th), dict(w=th)); se('trexp2-se2', lambda: b.trexp2(np.r_[t2, th]), dict(S=np.r_[t2, th]))
         # quaternion constructors
         q = inputs.unitq(g)
@@ -109,6 +120,17 @@ def _impl(tier, seed, search):
         qq = g.normal(size=4) * 10.0 ** g.uniform(-6, 6)
         uq('unit', lambda: b.unit(qq), dict(q=qq)); uq('rand', lambda: b.rand(), {})
         uq('UnitQuaternion(v)', lambda: UnitQuaternion(qq).vec, dict(q=qq))
+        # multi-valued construction from an N x 4 array / list of 4-vectors: every stored value is a unit quaternion, its matrix a rotation
+        if i % 4 == 0:
+            Q4 = g.normal(size=(int(g.integers(2, 5)), 4)) * 10.0 ** g.uniform(-3, 3, size=(1, 1))
+            for nm_, f_ in (('UnitQuaternion(Nx4)', lambda: UnitQuaternion(Q4)), ('UnitQuaternion(list of 4-vectors)', lambda: UnitQuaternion([r_ for r_ in Q4]))):
+                try: Xq0 = f_()          # a list of non-unit 4-vectors may be rejected; what is accepted must be valid
+                except Exception: Xq0 = None
+                Xq = valid_obj(nm_, Xq0, dict(Q=Q4)) if Xq0 is not None else None
+                if Xq is not None:
+                    ok_, Rq = L.noraise(nm_ + '.R', lambda: np.asarray(Xq.R, float), dict(Q=Q4), 'R of a multi-valued unit quaternion')
+                    if ok_:
+                        for Rk in (Rq if Rq.ndim == 3 else [Rq]): so(nm_ + '.R', Rk, dict(Q=Q4))
         uq('slerp', lambda: b.slerp(q, inputs.unitq(g), float(g.uniform(0, 1))), dict(q=q))
         # normalisation, interpolation
         R = inputs.so3(g); T = inputs.se3(g)
